@@ -767,9 +767,19 @@ async fn run_ops_inner(p: Arc<Prog>, objs: Arc<Vec<Obj>>, b: usize, kind: Kind) 
                     .expect("vharness: no guard");
                 let Guard::M(_, g) = guards.remove(idx) else { unreachable!() };
                 // Shuttle does not model time: the timed variants are the untimed ones (odd task ids go through them)
-                let (code, g) = if me() % 2 == 1 {
+                // task ids 2 and 3 mod 4 use the predicate forms with a condition that holds exactly once (one wait)
+                let (code, g) = if me() % 4 == 1 {
                     let (code, (g, t)) = lock_code(c.wait_timeout(g, std::time::Duration::from_millis(1)), |x| x);
                     assert!(!t.timed_out(), "vharness: wait_timeout reported a timeout");
+                    (code, g)
+                } else if me() % 4 == 2 {
+                    let mut first = true;
+                    lock_code(c.wait_while(g, |_| std::mem::replace(&mut first, false)), |g| g)
+                } else if me() % 4 == 3 {
+                    let mut first = true;
+                    let (code, (g, t)) =
+                        lock_code(c.wait_timeout_while(g, std::time::Duration::from_millis(1), |_| std::mem::replace(&mut first, false)), |x| x);
+                    assert!(!t.timed_out(), "vharness: wait_timeout_while reported a timeout");
                     (code, g)
                 } else {
                     lock_code(c.wait(g), |g| g)
